@@ -365,4 +365,105 @@ theorem getBytes_canon (m : WMsg) (hnd : (m.map Prod.fst).Nodup) (f : Nat) :
         rw [h0]; exact ih'
       · simp only [if_true]; exact ih'
 
+/-! ### groups -/
+
+theorem skipGroup_encField (fuel num : Nat) (p : Nat × WVal) (hp : FieldWF p) (t : List Byte) :
+    skipGroup (fuel + 1) num (encField p ++ t) = skipGroup fuel num t := by
+  obtain ⟨f, v⟩ := p
+  cases v with
+  | varint v =>
+    simp only [FieldWF, maxField] at hp
+    obtain ⟨h1, h2, h3, h4⟩ := hp
+    have hk : f * 8 < 2 ^ 64 := by simp only [Nat.reducePow]; omega
+    have hdiv : f * 8 / 8 = f := by omega
+    have hmod : f * 8 % 8 = 0 := by omega
+    have hf : ¬ (f = 0 ∨ f > 2147483647) := by omega
+    simp only [encField, List.append_assoc]
+    rw [skipGroup]
+    simp only [readUvarint_uvarint _ hk, hdiv, hmod, hf,
+      readUvarint_uvarint _ (toU64_lt v), if_false, if_true]
+    simp
+  | bytes b =>
+    simp only [FieldWF, maxField, two64] at hp
+    obtain ⟨h1, h2, h3⟩ := hp
+    have hk : f * 8 + 2 < 2 ^ 64 := by simp only [Nat.reducePow]; omega
+    have hb : b.length < 2 ^ 64 := by simp only [Nat.reducePow]; omega
+    have hdiv : (f * 8 + 2) / 8 = f := by omega
+    have hmod : (f * 8 + 2) % 8 = 2 := by omega
+    have hf : ¬ (f = 0 ∨ f > 2147483647) := by omega
+    have hnl : ¬ ((b ++ t).length < b.length) := by
+      simp only [List.length_append]; omega
+    simp only [encField, List.append_assoc]
+    rw [skipGroup]
+    simp only [readUvarint_uvarint _ hk, hdiv, hmod, hf,
+      readUvarint_uvarint _ hb, hnl, List.drop_left, if_false, if_true]
+    simp
+
+theorem skipGroup_encode_append (num : Nat) (m : WMsg) : WF m → ∀ (fuel : Nat) (t : List Byte),
+    skipGroup (m.length + fuel) num (encode m ++ t) = skipGroup fuel num t := by
+  induction m with
+  | nil =>
+    intro _ fuel t
+    simp only [encode_nil, List.length_nil, Nat.zero_add, List.nil_append]
+  | cons p m ih =>
+    intro h fuel t
+    have hp : FieldWF p := h p (by simp)
+    have hm : WF m := fun x hx => h x (by simp [hx])
+    have hfuel : (p :: m).length + fuel = (m.length + fuel) + 1 := by
+      simp only [List.length_cons]; omega
+    rw [hfuel, encode_cons, List.append_assoc, skipGroup_encField _ _ p hp, ih hm fuel t]
+
+theorem skipGroup_endTag (fuel f : Nat) (hf1 : 1 ≤ f) (hf2 : f < maxField) (t : List Byte) :
+    skipGroup (fuel + 1) f (uvarint (f * 8 + 4) ++ t) = some t := by
+  simp only [maxField] at hf2
+  have hk : f * 8 + 4 < 2 ^ 64 := by simp only [Nat.reducePow]; omega
+  have hdiv : (f * 8 + 4) / 8 = f := by omega
+  have hmod : (f * 8 + 4) % 8 = 4 := by omega
+  have hf : ¬ (f = 0 ∨ f > 2147483647) := by omega
+  rw [skipGroup]
+  simp only [readUvarint_uvarint _ hk, hdiv, hmod, hf, if_false, if_true]
+
+theorem decode_startGroup (fuel f : Nat) (hf1 : 1 ≤ f) (hf2 : f < maxField) (rest : List Byte) :
+    decode (fuel + 1) (uvarint (f * 8 + 3) ++ rest)
+      = match skipGroup fuel f rest with
+        | none => none
+        | some r => decode fuel r := by
+  have hf2' := hf2
+  simp only [maxField] at hf2'
+  have hk : f * 8 + 3 < 2 ^ 64 := by simp only [Nat.reducePow]; omega
+  have hdiv : (f * 8 + 3) / 8 = f := by omega
+  have hmod : (f * 8 + 3) % 8 = 3 := by omega
+  have hf : ¬ (f = 0 ∨ f ≥ maxField) := by simp only [maxField]; omega
+  rw [decode]
+  simp only [uvarint_append_ne_nil, if_false, readUvarint_uvarint _ hk, hdiv, hmod, hf]
+  cases skipGroup fuel f rest <;> simp
+
+theorem decode_group (f : Nat) (hf1 : 1 ≤ f) (hf2 : f < maxField) (inner m : WMsg) (hi : WF inner)
+    (hm : WF m) (F : Nat) (h1 : inner.length + 1 ≤ F) (h2 : m.length + 1 ≤ F) :
+    decode (F + 1) (uvarint (f * 8 + 3) ++ (encode inner ++ (uvarint (f * 8 + 4) ++ encode m)))
+      = some m := by
+  rw [decode_startGroup F f hf1 hf2]
+  have e1 : F = inner.length + ((F - inner.length - 1) + 1) := by omega
+  have hs : skipGroup F f (encode inner ++ (uvarint (f * 8 + 4) ++ encode m)) = some (encode m) := by
+    rw [e1, skipGroup_encode_append f inner hi, skipGroup_endTag _ f hf1 hf2]
+  rw [hs]
+  have e2 : F = m.length + ((F - m.length - 1) + 1) := by omega
+  have := decode_encode_append m hm ((F - m.length - 1) + 1) []
+  rw [List.append_nil, decode_nil] at this
+  show decode F (encode m) = some m
+  rw [e2, this]
+  simp
+
+theorem unmarshal_group (f : Nat) (hf1 : 1 ≤ f) (hf2 : f < maxField) (inner m : WMsg) (hi : WF inner)
+    (hm : WF m) :
+    unmarshal (uvarint (f * 8 + 3) ++ (encode inner ++ (uvarint (f * 8 + 4) ++ encode m))) = some m := by
+  have l1 := length_le_encode_length inner
+  have l2 := length_le_encode_length m
+  have l3 := uvarint_length_pos (f * 8 + 3)
+  have l4 := uvarint_length_pos (f * 8 + 4)
+  rw [unmarshal]
+  apply decode_group f hf1 hf2 inner m hi hm
+  · simp only [List.length_append]; omega
+  · simp only [List.length_append]; omega
+
 end Wharf.Proto
